@@ -365,14 +365,14 @@ def run(m: Model, r: Report, tier: str) -> None:
     r.check(bool(ldefs) and all(ast.unparse(a.value).startswith("MissingResponse(request") for a in ldefs), "R6",
             f"{fn.qualname}#terminal-type", f"last_exception is built by {[ast.unparse(a.value)[:40] for a in ldefs]}", loc=fn.loc)
     hs = [n for n in walk_no_nested(fn.node) if isinstance(n, ast.ExceptHandler) and n.type is not None and ast.unparse(n.type) == "ConnectionError"
-          and WHILE not in ancestors(n, par)]
+          and WHILE not in ancestors(n, par) and not any(isinstance(a_, ast.ExceptHandler) for a_ in ancestors(n, par))]
     if len(hs) != 1:
         raise AnalysisError(f"{fn.qualname}: ConnectionError handler of the attempt not found")
     # a connection can be lost in the first exchange of an attempt and in every poll of the pending phase: both reads sit in a try whose ConnectionError
     # handler records MissingResponse with the cause, reconnects iff retries remain and starts the next attempt (continue / break out of the pending loop)
     polls_ = [n for n in ast.walk(WHILE) if isinstance(n, ast.Await) and "self._read(" in ast.unparse(n)]
     hs_w = [h_ for t_ in ast.walk(WHILE) if isinstance(t_, ast.Try) and any(p_ is x for p_ in polls_ for b_ in t_.body for x in ast.walk(b_))
-            for h_ in t_.handlers if h_.type is not None and ast.unparse(h_.type) == "ConnectionError"]
+            for h_ in t_.handlers if h_.type is not None and ast.unparse(h_.type) == "ConnectionError" and not any(isinstance(a_, ast.ExceptHandler) for a_ in ancestors(h_, par))]
     r.check(bool(polls_) and len(hs_w) == 1, "R6", f"{fn.qualname}#connection-loss-while-pending",
             "the poll read of the pending phase has no ConnectionError handler: a connection that is lost (reset, end of stream) after a responsePending leaves "
             "request_unsafe as a raw ConnectionError / BrokenPipeError - no MissingResponse, no reconnect, no retransmission although retries remain", loc=fn.loc)
@@ -385,6 +385,12 @@ def run(m: Model, r: Report, tier: str) -> None:
         r.check(ok_rec, "R6", f"{fn.qualname}#reconnect@{where_}",
                 f"reconnect call(s) {[ast.unparse(x.func) for x in rec]}: must be reconnect_unsafe (the client mutex is already held) under `i < max_retry`", loc=fn.loc)
         r.check(isinstance(h.body[-1], last_stmt), "R6", f"{fn.qualname}#handler-continues@{where_}", "the ConnectionError handler must start the next attempt", loc=fn.loc)
+        # the reconnect attempt can fail as well (the peer is not back yet): that failure must not leave request_unsafe as a raw ConnectionError while retries remain
+        for rc_ in rec:
+            guarded_rc = any(isinstance(t2, ast.Try) and any(rc_ is x for b_ in t2.body for x in ast.walk(b_)) and
+                             any(h2.type is None or any(k in ast.unparse(h2.type) for k in ("ConnectionError", "OSError", "Exception")) for h2 in t2.handlers) for t2 in ast.walk(h))
+            r.check(guarded_rc, "R6", f"{fn.qualname}#reconnect-failure-handled@{where_}", "reconnect_unsafe() is awaited unprotected inside the ConnectionError handler: when the peer "
+                    "refuses the connection at that moment, the ConnectionRefusedError leaves request_unsafe at once - no MissingResponse, the remaining retries are not used", loc=fn.loc)
     h = hs[0]
     to = [n for n in walk_no_nested(fn.node) if isinstance(n, ast.ExceptHandler) and n.type is not None and ast.unparse(n.type) == "TimeoutError"
           and WHILE not in ancestors(n, par)]
